@@ -29,7 +29,11 @@ const OPS: &[&str] = &[
     "X LPUSH K a", "X RPUSH K b", "X LPOP K", "X RPOP K", "X LLEN K", "X SADD K m", "X SREM K m", "X SPOP K", "X SCARD K",
     "X HSET K f 1", "X HSETNX K f 2", "X HINCRBY K f 1", "X HDEL K f", "X HGET K f", "X ZADD K 1 m", "X ZADD K NX 2 m", "X ZINCRBY K 1 m", "X ZREM K m", "X ZSCORE K m",
     "X EXISTS K", "X TYPE K", "X EXPIRE K 100", "X PERSIST K", "X TTL K",
+    // 50.. : one pipelined batch of n SETs of the SAME key (values v0..v(n-1)) through the batched path; a client's
+    // own writes to one key take effect in the order it sent them, so the batch as a whole acts like SET K v(n-1)
+    "BSN 33 K", "BSN 65 K", "BSN 130 K",
 ];
+const BSN_FROM: usize = 50;
 const RMW_FROM: usize = 16;
 
 #[derive(Clone, Debug)]
@@ -104,6 +108,15 @@ async fn client(
                 let ps: Vec<(Bytes, Bytes)> = op[1..].chunks(2).map(|c| (Bytes::from(c[0].clone()), Bytes::from(c[1].clone()))).collect();
                 let rs = state.fast_batch_set_pipeline(ps).await;
                 op[1..].chunks(2).zip(rs).map(|(c, r)| (set(&c[0], &c[1]), r)).collect()
+            }
+            "BSN" => {
+                let n: usize = String::from_utf8_lossy(&op[1]).parse().unwrap();
+                let key = op[2].clone();
+                let ps: Vec<(Bytes, Bytes)> = (0..n).map(|i| (Bytes::from(key.clone()), Bytes::from(format!("v{i}").into_bytes()))).collect();
+                let rs = state.fast_batch_set_pipeline(ps).await;
+                let bad = rs.iter().find(|r| resp::show(r) != "+OK").cloned();
+                let reply = if rs.len() != n { RespValue::Error(format!("{} replies for {n} SETs", rs.len()).into()) } else { bad.unwrap_or(RespValue::SimpleString("OK".into())) };
+                vec![(set(&key, &format!("v{}", n - 1).into_bytes()), reply)]
             }
             other => panic!("unknown tag {other}"),
         };
@@ -410,7 +423,7 @@ fn main() {
         .spawn();
     const EVAL: usize = 13;
     let all: Vec<usize> = (0..RMW_FROM).collect();
-    let rmw: Vec<usize> = [0usize, 1, 9, 10, 11, 12].into_iter().chain(RMW_FROM..OPS.len()).collect();
+    let rmw: Vec<usize> = [0usize, 1, 9, 10, 11, 12].into_iter().chain(RMW_FROM..BSN_FROM).collect();
     let no_eval: Vec<usize> = all.iter().copied().filter(|o| *o != EVAL).collect();
     let core: Vec<usize> = vec![0, 1, 3, 4, 5, 6, 7, 8, 9]; // GET SET FG FS PG PS BG BS INCR
     let lua: Vec<usize> = vec![EVAL, 0, 1, 6, 9]; // EVAL GET SET PS INCR  (EVAL builds a Lua VM per call: kept in its own small group)
@@ -428,6 +441,8 @@ fn main() {
         ("2clients x 2ops, 1 shard", 1, 2, 2, small.clone(), NONE, NONE),
         ("3clients x 2ops, 2 shards", 2, 3, 2, small[..4].to_vec(), 2, if thorough { 4 } else { 2 }),
         ("RMW breadth: 2clients x 1op over 34 conditional/read-modify-write commands + SET/GET/INCR/APPEND/DEL/GETSET, 2 shards", 2, 2, 1, rmw.clone(), NONE, NONE),
+        ("batch order: 1 client, a big same-key SET batch and a read, 2 shards", 2, 1, 2, vec![BSN_FROM, BSN_FROM + 1, BSN_FROM + 2, 0, 3], NONE, NONE),
+        ("batch order: a big same-key SET batch next to a second client on another key, 2 shards", 2, 2, 1, vec![BSN_FROM, BSN_FROM + 1, 14, 15], NONE, NONE),
         ("CONN: 2 connections x 2 pipelined commands, 2 shards", 2, 2, 2, conn_ops.clone(), NONE, NONE),
         ("CONN: 3 connections x 1 command, 1 shard", 1, 3, 1, conn_ops.clone(), NONE, NONE),
     ];
